@@ -494,12 +494,37 @@ def run_lifecycle(rep: C.Report, wd: str, tier: str, seed: int) -> None:
                        "the bytes queued by a call are classified with the library's own decoder (the codec is judged by C01/C03)"]
 
 
+def run_inductive(rep: "C.Report", wd: str, tier: str) -> None:
+    """Design level, unbounded message ids: Apalache proves IndInv inductive and the action properties of C05/C08/C09/C10
+    on every step from any state of IndInv (spec/MC_SessionInd.tla); TLC checks that every SessionCore step is a
+    SessionInd step (spec/SessionIndRef.tla), which carries the result over to the specification that is replayed on
+    the code.  A failure here is a defect of the specifications, not of the library: MachineryError."""
+    jobs = [dict(module="SessionIndRef", cfg=f"SessionIndRef_{role}.cfg", wd=wd, workers=4, tag="indref" + role) for role in ("client", "server")]
+    for role, r in zip(("client", "server"), C.run_tlc_parallel(jobs)):
+        rep.add_tlc(f"SessionIndRef {role}: SessionCore steps are SessionInd steps (ids 0..3)", r, exhaustive=True)
+    steps = [("initial", ["--cinit=CInit", "--init=Init", "--inv=IndInv", "--length=0"]),
+             ("inductive", ["--cinit=CInit", "--init=IndInit", "--inv=IndInv", "--length=1"]),
+             ("action-properties", ["--cinit=CInit", "--init=IndInit", "--inv=ActionInv", "--length=1"])]
+    from concurrent.futures import ThreadPoolExecutor
+
+    with ThreadPoolExecutor(max_workers=3) as ex:
+        futs = [(name, ex.submit(C.run_apalache, "MC_SessionInd", args, wd, tag=name)) for name, args in steps]
+        for name, f in futs:
+            ok, wall, out = f.result()
+            if not ok:
+                raise C.MachineryError(f"Apalache refutes SessionInd step '{name}' - the specification is wrong:\n" + "\n".join(out.splitlines()[-25:]))
+            rep.add_part(f"Apalache MC_SessionInd {name}", engine="apalache", wall_s=round(wall, 2), exhaustive=True,
+                         note="symbolic: arbitrary integer message ids, both roles; at most 6 operations in progress at the start of the step")
+
+
 def run_prop(prop: str, tier: str, seed: int) -> int:
     C.use_repo()
     rep = C.Report(prop, tier, seed)
     wd = C.workdir(prop)
     try:
         run_lifecycle(rep, wd, tier, seed)
+        if prop in ("C08", "C09", "C10"):
+            run_inductive(rep, wd, tier)
         if prop in ("C10", "C12"):
             from . import drain
 
